@@ -1,6 +1,6 @@
 (* C18 — CloudEvents output is well-formed and, where required, verifiably signed. *)
 From Coq Require Import List NArith.
-From Verif Require Import Alist Base64 Json Formatters CloudEvents CloudEventsProofs.
+From Verif Require Import Alist Base64 Json JsonProofs Formatters CloudEvents CloudEventsProofs FormatsExamples.
 Import ListNotations.
 Open Scope N_scope.
 
@@ -60,6 +60,33 @@ Theorem C18_forwarded_implies_signed : forall (P : Type) (p_id : P -> option byt
 Proof. exact forwarded_implies_signed. Qed.
 Print Assumptions C18_forwarded_implies_signed.
 
+(* the full statement, with the framing: the stored document is the unsigned document plus the two members; serialized is
+   non-empty and base64url-decodes (Base64.decode_encode) to exactly the encoding of the unsigned document — the bytes of the
+   one call the signer received, whose result is serialized_hmac; and both documents parse back to their images.
+   Hypothesis: the data image handed over by the oracle is a well-formed JSON value. *)
+Theorem C18_signed_when_required : forall (P : Type) (p_id : P -> option bytes) (p_data : P -> dimage) cf (ev : event P) fresh r oc calls sg,
+  process p_id p_data (Some cf) (Some ev) fresh = (r, oc, calls) -> oc <> OErr ->
+  c_signer cf = Some sg -> listed cf (ev_type ev) = true ->
+  (forall v, p_data (ev_payload ev) = DVal v -> wf v) ->
+  exists d h ser,
+    d_ser d = [] /\ d_hmac d = [] /\
+    sg (enc (c_format cf) d) = SigOk h /\ calls = [enc (c_format cf) d] /\
+    r = Some (formatted_as (fmt_key (c_format cf)) (enc (c_format cf) (with_sig d ser h)) ev) /\
+    ser <> [] /\ Base64.decode ser = Some (enc (c_format cf) d) /\
+    (h <> [] -> members (doc_jv (with_sig d ser h)) =
+                members (doc_jv d) ++ [(s_serialized, JStr ser); (s_serialized_hmac, JStr h)]) /\
+    parse_doc (enc (c_format cf) d) = Some (jimage (doc_jv d)) /\
+    parse_doc (enc (c_format cf) (with_sig d ser h)) = Some (jimage (doc_jv (with_sig d ser h))).
+Proof. exact signed_when_required. Qed.
+Print Assumptions C18_signed_when_required.
+
+(* every stored document — compact for cloudevents-json, indented for cloudevents-text — is JSON that parses back to the image
+   of the document object (its members in order: id, source, specversion "1.0", type, data?, datacontentype, dataschema?, time,
+   serialized?, serialized_hmac?) *)
+Theorem C18_ce_document_parses : forall f d, data_wf (d_data d) -> parse_doc (enc f d) = Some (jimage (doc_jv d)).
+Proof. exact ce_document_parses. Qed.
+Print Assumptions C18_ce_document_parses.
+
 (* an event whose signing failed is not forwarded (and not stored) unsigned.  The code before the F2 repair violated this:
    witness in notes/redgreen/C18_F2_before.txt and corpus/C18 *)
 Theorem C18_sign_failure_not_forwarded : forall (P : Type) (p_id : P -> option bytes) (p_data : P -> dimage) cf (ev : event P) fresh id t dat sg,
@@ -86,3 +113,11 @@ Theorem C18_ce_fresh_ids_distinct_partial : forall (P : Type) (p_id : P -> optio
   NoDup stream -> NoDup (process_all p_id c evs stream).
 Proof. exact ce_fresh_ids_distinct_partial. Qed.
 Print Assumptions C18_ce_fresh_ids_distinct_partial.
+
+(* non-vacuity: a valid text-format configuration with a signer and a listed type, a nested payload without ID(), forwarded *)
+Theorem C18_nonvacuous :
+  exists r calls,
+    process ex_pid ex_pdata (Some ex_cfg) (Some ex_event) (Some ex_fresh) = (r, OFwd, calls) /\
+    c_signer ex_cfg = Some ex_signer /\ listed ex_cfg (ev_type ex_event) = true /\
+    (forall v, ex_pdata (ev_payload ex_event) = DVal v -> wf v) /\ length calls = 1%nat.
+Proof. exact ex_nonvacuous_c18. Qed.
